@@ -119,7 +119,9 @@ def complete_trip_phase(
                     num_passengers=updated_num_passengers,
                     departure_times=updated_departure_times,
                 )
-                updated_vehicle = vehicle.modify_vehicle_state(updated_vehicle_state)
+                # (the vehicle in sim2 has been paid for this pickup)
+                paid_vehicle = sim2.vehicles.get(vehicle.id, vehicle)
+                updated_vehicle = paid_vehicle.modify_vehicle_state(updated_vehicle_state)
                 result = modify_vehicle(sim2, updated_vehicle)
                 return result
 
